@@ -25,6 +25,44 @@ LIBS_JDK = [os.path.join(SPEC, d) for d in ("prim/jdk", "lib", "algo", "pq", "sy
 LIBS_TOY = [os.path.join(SPEC, d) for d in ("prim/toy", "lib", "algo", "pq", "sys", "trace", "mc", "plan")]
 
 
+SLOTS = int(os.environ.get("VERIF_SLOTS", "20"))   # machine-wide cap on concurrently busy TLC worker threads
+SLOT_DIR = "/tmp/verif-slots"
+
+
+class _Slots:
+    """Cross-process token pool (flock on files) so that parallel checks do not oversubscribe the machine."""
+
+    def __init__(self, want):
+        self.want = max(1, min(want, SLOTS))
+        self.held = []
+
+    def __enter__(self):
+        import fcntl
+        os.makedirs(SLOT_DIR, exist_ok=True)
+        while True:
+            for i in range(SLOTS):
+                if len(self.held) >= self.want:
+                    break
+                f = open(os.path.join(SLOT_DIR, "slot-%d" % i), "w")
+                try:
+                    fcntl.flock(f, fcntl.LOCK_EX | fcntl.LOCK_NB)
+                    self.held.append(f)
+                except OSError:
+                    f.close()
+            if len(self.held) >= self.want:
+                return self
+            # could not get all: release and retry (avoids deadlock between big requests)
+            for f in self.held:
+                f.close()
+            self.held = []
+            time.sleep(0.2 + random.random() * 0.5)
+
+    def __exit__(self, *a):
+        for f in self.held:
+            f.close()
+        self.held = []
+
+
 class Infra(Exception):
     """An infrastructure problem: exit 2, never a verdict about the code."""
 
@@ -241,12 +279,13 @@ class Ctx:
             argv += ["-simulate", simulate]
         argv += list(extra) + [path]
         e = self.env(**(env or {}))
-        t = time.time()
-        try:
-            r = subprocess.run(argv, env=e, cwd=meta, capture_output=True, text=True, timeout=timeout)
-        except subprocess.TimeoutExpired as ex:
-            subprocess.run(["pkill", "-f", meta], capture_output=True)
-            raise Infra("TLC timeout after %ds on %s" % (timeout, os.path.basename(path)))
+        with _Slots(workers):
+            t = time.time()
+            try:
+                r = subprocess.run(argv, env=e, cwd=meta, capture_output=True, text=True, timeout=timeout)
+            except subprocess.TimeoutExpired as ex:
+                subprocess.run(["pkill", "-f", meta], capture_output=True)
+                raise Infra("TLC timeout after %ds on %s" % (timeout, os.path.basename(path)))
         res = parse_tlc(r.stdout + r.stderr)
         res.rc = r.returncode
         res.wall = time.time() - t
@@ -290,19 +329,30 @@ class Ctx:
 
     # ------------------------------------------------------------------ trace validation
     def validate_events(self, module, trace, cfg=None, shards=16, timeout=1800, env=None, heap="3g",
-                        max_findings=25, stage=None, deque=False):
-        """Validate a trace of INDEPENDENT or chained events with a trace spec that has variables l (next
-        position) and bad (<<>> or <<index, reason, expected...>>), invariant Conforms, env VERIF_TRACE /
-        VERIF_START. The file is split into `shards` pieces validated by parallel TLC processes; after a
-        mismatch the shard resumes behind the offending event (only valid for specs whose events are
-        independent or that re-synchronise on `reset` events -- pass shards=1,max_findings=1 otherwise).
-        Returns (mismatches, n_events). A mismatch is dict(event=<json>, index=<global 0-based>, bad=[...])."""
+                        max_findings=25, stage=None, deque=False, reset=None):
+        """Validate a trace with a trace spec that has variables l (next position) and bad (<<>> or
+        <<reason, expected...>>), invariant Conforms, env VERIF_TRACE / VERIF_START. The file is split into
+        `shards` pieces validated by parallel TLC processes; after a mismatch the shard resumes behind the
+        offending event. With reset=<event name> the trace is stateful: pieces start only at events of that
+        name (which re-initialise the model) and a shard resumes at the next such event after a mismatch.
+        Returns (mismatches, n_events); a mismatch is dict(event=<json>, index=<global 0-based>, bad=[...])."""
         lines = [x for x in open(trace).read().splitlines() if x.strip()]
         n = len(lines)
         if n == 0:
             raise Infra("empty trace " + trace)
         shards = max(1, min(shards, (n + 199) // 200))
-        bounds = [(i * n // shards, (i + 1) * n // shards) for i in range(shards)]
+        cuts = [i * n // shards for i in range(shards)] + [n]
+        resets = None
+        if reset:
+            key = '"ev":"%s"' % reset
+            resets = [i for i, x in enumerate(lines) if key in x.replace('": "', '":"')]
+            if not resets or resets[0] != 0:
+                raise Infra("stateful trace %s must start with a %s event" % (trace, reset))
+            import bisect
+            snapped = sorted(set([0] + [resets[min(len(resets) - 1, bisect.bisect_left(resets, c))] for c in cuts[1:-1]]))
+            cuts = snapped + [n]
+        bounds = [(cuts[i], cuts[i + 1]) for i in range(len(cuts) - 1) if cuts[i] < cuts[i + 1]]
+        shards = len(bounds)
         files = []
         for i, (a, b) in enumerate(bounds):
             p = os.path.join(self.scratch, "%s.%s.%d.ndjson" % (os.path.basename(trace), module, i))
@@ -328,6 +378,11 @@ class Ctx:
                     idx = li - 2   # bad describes event l-1 (1-based) => 0-based l-2
                     out.append(dict(index=a + idx, event=json.loads(lines[a + idx]), bad=bad))
                     start = li
+                    if resets is not None:
+                        nxt = [x for x in resets if x > a + idx and x < bounds[i][1]]
+                        if not nxt:
+                            break
+                        start = nxt[0] - a + 1
                     continue
                 if r.error or not r.ok:
                     raise Infra("trace spec %s shard %d: %s" % (module, i, r.error or r.out[-1500:]))
@@ -347,7 +402,8 @@ class Ctx:
             os.remove(p)
         return mism, n
 
-    def negative_control(self, module, trace, corrupt, cfg=None, window=250, env=None, tries=40, stage=None):
+    def negative_control(self, module, trace, corrupt, cfg=None, window=250, env=None, tries=40, stage=None,
+                         reset=None):
         """Corrupt one logged field of one event (chosen by the seed) and require rejection at exactly
         that event. `corrupt(event, rng)` returns a changed copy or None when not applicable."""
         lines = [x for x in open(trace).read().splitlines() if x.strip()]
@@ -359,6 +415,18 @@ class Ctx:
                 continue
             a = max(0, k - window // 2)
             sub = lines[a:a + window]
+            if reset:   # stateful trace: the window is the scenario (reset .. next reset) containing event k
+                key = '"ev":"%s"' % reset
+                isr = lambda x: key in x.replace('": "', '":"')
+                if isr(lines[k]):
+                    continue
+                a = k
+                while a > 0 and not isr(lines[a]):
+                    a -= 1
+                b = k + 1
+                while b < len(lines) and not isr(lines[b]):
+                    b += 1
+                sub = lines[a:b]
             sub[k - a] = json.dumps(c)
             p = os.path.join(self.scratch, "nc.%s.ndjson" % module)
             with open(p, "w") as f:
